@@ -106,6 +106,13 @@ func c04store(ev *verifev.Run, root string, def uint) {
 	bin := os.Getenv("VERIF_AGENT_BIN")
 	cf := filepath.Join(root, "store.yaml")
 
+	storeBefore := verifx.Snap(dir)
+	defer func() {
+		// with upgrades off no authentication through any frontend modifies the store
+		if after := verifx.Snap(dir); !after.Equal(storeBefore) {
+			ev.Violation("authentication-modified-store", fmt.Sprintf("[default set %d] the store changed while only authentication requests were served: %s", def, storeBefore.Diff(after)), nil)
+		}
+	}()
 	for _, name := range names {
 		for _, pw := range pws {
 			ref := func(n string) bool {
